@@ -256,6 +256,18 @@ func nestCases(depths []int) []*Case {
 		add("selector-chain", d, inPlain("    i = this"+rep(".val", d)))
 		add("as-refine", d, inPlain("    i = "+rep("(1 as base.u32[..= ", d)+"1"+rep("])", d)))
 		add("slice-chain", d, inPlain("    c = this.arr"+rep("[..]", d)+"[0]"))
+		// Deep LEFT spines: postfix chains are built by a loop in parseOperand, so the
+		// parser's recursion guards do not see them, but every later recursive pass
+		// over the Expr (ast.Node.Walk, Str, lang/check, cgen) does.
+		add("index-chain", d, inPlain("    c = this.tab"+rep("[0]", d)))
+		add("call-chain", d, inPlain("    this.up"+rep("!()", d)))
+		add("pure-call-chain", d, inPlain("    i = this.get"+rep("()", d)))
+		add("mixed-postfix-chain", d, inPlain("    i = this"+rep(".val[0]!(a: 1)[..]", d/4+1)))
+		add("selector-chain-in-assert", d, inPlain("    assert this"+rep(".val", d)+" == 0"))
+		add("selector-chain-in-const", d, "pri const X : base.u32 = Y"+rep(".z", d)+"\n")
+		add("selector-chain-in-array-len", d, "pri struct bar(\nx : array[Y"+rep(".z", d)+"] base.u8,\n)\n")
+		add("assoc-and-chain", d, inPlain("    if true"+rep(" and true", d)+" {\n    }"))
+		add("assoc-plus-chain-of-selectors", d, inPlain("    i = this.val"+rep(" + this.val", d)))
 		add("list", d, "pri const X : roarray[1] base.u8 = "+rep("[", d)+"1"+rep("]", d)+"\n")
 		add("type-ptr", d, "pri struct bar(x: base.u8)\npri func f(a: "+rep("ptr ", d)+"bar) {\n}\n")
 		add("type-nptr", d, "pri struct bar(x: base.u8)\npri func f(a: "+rep("nptr ", d)+"bar) {\n}\n")
@@ -368,6 +380,12 @@ func boundaryCases(thorough bool) []*Case {
 		add("huge-list", "pri const X : roarray[1] base.u8 = "+rep("[", d)+"1"+rep("]", d)+"\n")
 		add("huge-if-nest", inPlain(rep("if true {\n", d/3)+rep("}\n", d/3)))
 		add("huge-else-if", inPlain("if i == 1 {\n"+rep("} else if i == 2 {\n", d/3)+"}"))
+		add("huge-selector-chain", inPlain("    i = this"+rep(".val", d)))
+		add("huge-index-chain", inPlain("    c = this.tab"+rep("[0]", d)))
+		add("huge-slice-chain", inPlain("    c = this.arr"+rep("[..]", d)+"[0]"))
+		add("huge-call-chain", inPlain("    this.up"+rep("!()", d)))
+		add("huge-assoc-chain", inPlain("    i = 1"+rep(" | 1", d)))
+		add("huge-list-flat", "pri const X : roarray[1] base.u8 = ["+rep("1, ", d)+"]\n")
 	}
 	if thorough {
 		b := strings.Builder{}
